@@ -269,6 +269,8 @@ def gen_graph_ops(rng, nv=None, nl=None, odd=0.25, universes=True):
         nid += 1
         if rng.random() < odd / 3:
             ops.append(["LAV", lids[-1], rng.choice(vids)])   # a third member
+        elif rng.random() < odd / 3 and r >= odd * 0.75:
+            ops.append(["LUF", lids[-1], b])                  # the link loses an end (link then unlink one end): vertices == (a,)
     uid = None
     if universes and rng.random() < 0.7:
         members = [v for v in vids if rng.random() < 0.75]
